@@ -17,10 +17,16 @@ type c10Case struct {
 	Offsets []int    `json:"offsets"`
 	Payload kit.Blob `json:"payload"`
 	Sub2    bool     `json:"secondExtension,omitempty"`
+	// Frontend (phase init): the first caller's request is what starts the initialisation, as in the real binary
+	// (the front end initialises lazily on the first invoke request); the extra callers arrive meanwhile
+	Frontend bool `json:"frontend,omitempty"`
+	// Ordered (with Frontend): the first caller is paused inside the lazy initialisation (vhook frontend.lazyInit) until
+	// the extra callers have arrived at the front end too
+	Ordered bool `json:"ordered,omitempty"`
 }
 
 func (c *c10Case) scenario() *Scenario {
-	sc := &Scenario{Config: Config{TimeoutMs: 4000, TimeoutEnvS: 4}, Actors: map[string][]Script{}, BudgetS: 25}
+	sc := &Scenario{Config: Config{TimeoutMs: 4000, TimeoutEnvS: 4, FrontendInit: c.Frontend && c.Phase == "init"}, Actors: map[string][]Script{}, BudgetS: 25}
 	loop := Step{Op: "rt.loop"}
 	switch c.Phase {
 	case "init":
@@ -57,6 +63,21 @@ func (c *c10Case) scenario() *Scenario {
 		sc.Actors["runtime"] = []Script{{Steps: []Step{{Op: "rt.next", Signal: []string{"gotevent"}}, {Op: "stall"}}},
 			{Steps: []Step{{Op: "rt.next"}, {Op: "sleep", Ms: c.D % 160}, {Op: "rt.response", ID: "cur", BodyMode: "transform"}, loop}}}
 	}
+	if c.Phase == "init" && c.Frontend && c.Ordered {
+		sc.Hooks = []HookPlan{{Point: "frontend.lazyInit", Nth: 1}}
+		sc.Driver = append(sc.Driver, Step{Op: "invoke", Tag: "i0", Async: true, Payload: &c.Payload}, Step{Op: "hook.wait", Point: "frontend.lazyInit", Ms: 4000})
+		for i := range c.Offsets {
+			sc.Driver = append(sc.Driver, Step{Op: "invoke", Async: true, Tag: fmt.Sprintf("x%d", i), Payload: &kit.Blob{Len: 5 + i, Seed: uint64(i), Kind: "ascii"}})
+		}
+		sc.Driver = append(sc.Driver, Step{Op: "sleep", Ms: 30}, Step{Op: "hook.release", Point: "frontend.lazyInit"})
+		for i := range c.Offsets {
+			sc.Driver = append(sc.Driver, Step{Op: "join", Tag: fmt.Sprintf("x%d", i)})
+		}
+		sc.Driver = append(sc.Driver, Step{Op: "join", Tag: "i0"},
+			Step{Op: "invoke", Tag: "i1", Payload: &kit.Blob{Len: 33, Seed: 9, Kind: "ascii"}},
+			Step{Op: "invoke", Tag: "i2", Payload: &kit.Blob{Len: 34, Seed: 10, Kind: "json"}})
+		return sc
+	}
 	sc.Driver = append(sc.Driver, Step{Op: "invoke", Tag: "i0", Async: true, Payload: &c.Payload, SigIssued: "issued"})
 	if c.Phase == "resetgap" {
 		sc.Driver = append(sc.Driver, Step{Op: "await", Name: "gotevent"}, Step{Op: "hook.wait", Point: "reset.serverCleared", Ms: 4000})
@@ -77,7 +98,9 @@ func (c *c10Case) scenario() *Scenario {
 	}
 	switch c.Phase {
 	case "init":
-		sc.Driver = append(sc.Driver, Step{Op: "waitreserved"})
+		if !c.Frontend {
+			sc.Driver = append(sc.Driver, Step{Op: "waitreserved"})
+		} // else: the extra callers race the first one for the lazy initialisation itself
 	case "reset":
 		sc.Driver = append(sc.Driver, Step{Op: "await", Name: "gotevent"}, Step{Op: "sleep", Ms: 260})
 	case "failreset":
@@ -168,6 +191,52 @@ func c10Check(c c10Case) kit.Outcome {
 	}
 	if run.TimedOut {
 		out.Violate("C10/hang", "scenario did not finish; trace tail: %s", tr.brief(30))
+		return out
+	}
+	if c.Frontend && c.Phase == "init" {
+		// the callers race for the lazy initialisation: whichever wins is the invocation, all others are refused at once
+		out.Label("frontend-init-race")
+		type caller struct {
+			tag string
+			pl  kit.Blob
+		}
+		callers := []caller{{"i0", c.Payload}}
+		for i := range c.Offsets {
+			callers = append(callers, caller{fmt.Sprintf("x%d", i), kit.Blob{Len: 5 + i, Seed: uint64(i), Kind: "ascii"}})
+		}
+		served := 0
+		for _, cl := range callers {
+			ret := tr.invokeReturn(cl.tag)
+			if ret == nil {
+				out.Violate("C10/no-outcome", "caller %s has no outcome", cl.tag)
+				return out
+			}
+			switch {
+			case ret.Status == 200:
+				served++
+				if !expectOK(&out, "C10", tr, cl.tag, cl.pl) {
+					return out
+				}
+			case ret.Status >= 400 && ret.Status < 500:
+				if ret.DurMs > 1000 {
+					out.Violate("C10/extra-not-immediate", "caller %s was refused after %.0f ms", cl.tag, ret.DurMs)
+					return out
+				}
+			default:
+				out.Violate("C10/extra-not-refused", "caller %s (racing for the first initialisation) got status %d %q", cl.tag, ret.Status, clip(ret.Text, 200))
+				return out
+			}
+		}
+		if served == 0 {
+			out.Violate("C10/first-affected", "%d callers raced for the first initialisation and none was served", len(callers))
+			return out
+		}
+		if served > 1 {
+			out.Label("frontend-init-race:served-in-turn") // a late caller found the winner already finished
+		}
+		if !expectOK(&out, "C10", tr, "i1", kit.Blob{Len: 33, Seed: 9, Kind: "ascii"}) || !expectOK(&out, "C10", tr, "i2", kit.Blob{Len: 34, Seed: 10, Kind: "json"}) {
+			return out
+		}
 		return out
 	}
 	first := tr.invokeReturn("i0")
@@ -282,6 +351,10 @@ func c10Check(c c10Case) kit.Outcome {
 func c10Gen(t *rapid.T) c10Case {
 	c := c10Case{Phase: rapid.SampledFrom([]string{"init", "working", "extfin", "reset", "resetgap", "failreset"}).Draw(t, "phase"),
 		D: rapid.IntRange(50, 400).Draw(t, "d"), Payload: genBlob(t, "p", false)}
+	if c.Phase == "init" {
+		c.Frontend = rapid.Bool().Draw(t, "frontend")
+		c.Ordered = c.Frontend && rapid.Bool().Draw(t, "ordered")
+	}
 	n := rapid.IntRange(1, 2).Draw(t, "extras")
 	budget := c.D
 	if c.Phase == "reset" || c.Phase == "failreset" {
@@ -302,6 +375,10 @@ func c10Fixed() []c10Case {
 	return []c10Case{
 		{Phase: "working", D: 150, Offsets: []int{10}, Payload: p},
 		{Phase: "init", D: 150, Offsets: []int{10, 20}, Payload: p},
+		{Phase: "init", D: 150, Offsets: []int{0, 0}, Payload: p, Frontend: true},
+		{Phase: "init", D: 60, Offsets: []int{0}, Payload: p, Frontend: true},
+		{Phase: "init", D: 60, Offsets: []int{0}, Payload: p, Frontend: true, Ordered: true},
+		{Phase: "init", D: 90, Offsets: []int{0, 0}, Payload: p, Frontend: true, Ordered: true},
 		{Phase: "extfin", D: 150, Offsets: []int{10}, Payload: p},
 		{Phase: "reset", D: 100, Offsets: []int{50, 100}, Payload: p},
 		{Phase: "failreset", D: 100, Offsets: []int{20, 150}, Payload: p},
